@@ -891,6 +891,18 @@ func runC12(w *World, r *Report) {
 	}
 
 	// ---- registered-closure
+	r.Rule("C12.read-errors-kept", "in internal/serialization and on compose's checkpoint read/write path a success return after an error-yielding call is reached only where that error was tested nil: bytes that cannot be decoded are an error, never 'nothing stored' (shared with C05.load-errors-kept / C13.no-dropped-error)", 1)
+	{
+		nf := 0
+		for _, fn := range w.RepoFuncs("compose", "internal/serialization") {
+			nf++
+			for _, d := range errDroppedReturns(fn) {
+				r.Fail("C12.read-errors-kept", fmt.Sprintf("%s: success return after %s", w.fname(fn), calleeFullName(d.call)), d.ret.Pos(), d.why+" — a value that was written but cannot be read back (unknown type key, truncated bytes, store failure) is reported as success / as absent instead of failing loudly")
+			}
+		}
+		r.OK("C12.read-errors-kept", fmt.Sprintf("success returns of %d functions", nf), token.NoPos, "none is reachable past an untested / non-nil callee error")
+	}
+
 	r.Rule("C12.registered-closure", "leaf types of the framework's persisted structs are registered, basic or interfaces", 3)
 	registered := map[string]bool{}
 	for _, fn := range w.RepoFuncs("internal/serialization", "compose") {
